@@ -12,6 +12,7 @@ import Dlismodel.Model.Api
 import Dlismodel.Model.Output
 import Dlismodel.Model.Index
 import Dlismodel.Model.Hc
+import Dlismodel.Model.File
 import Dlismodel.Model.DriverConv
 namespace Dlis
 
@@ -133,6 +134,22 @@ def takeLabels : Nat → List String → Option (List PStr × List String)
     pure (l :: ls, r)
   | _, _ => none
 
+/-- a set description at the head of the token list -/
+def takeSetDesc (ts : List String) : Option (SetDesc × List String) :=
+  match ts with
+  | ty :: nm :: nl :: rest => do
+    let ty ← parseCps ty
+    let nm ← optCps nm
+    let nl ← nl.toNat?
+    let (ls, r) ← takeLabels nl rest
+    match r with
+    | no :: r' => do
+      let no ← no.toNat?
+      let (os, r'') ← takeObjs no r'
+      pure ({ type := ty, name := nm, labels := ls, objects := os }, r'')
+    | [] => none
+  | _ => none
+
 def parseSetDesc (ts : List String) : Option SetDesc :=
   match ts with
   | ty :: nm :: nl :: rest => do
@@ -228,6 +245,91 @@ def showWorld (w : World) : String :=
     s!"hdr={showOptInt ((w.headerOrigin.getD lf none))} K=" ++ ",".intercalate ((lfKeys w lf).map showKey) ++ " R=" ++
       ";".intercalate ((setRecords w lf).map fun (k, its) => showKey k ++ "=" ++ "+".intercalate (its.map showItem))
   s!"W{if writable w then 1 else 0} items=" ++ "+".intercalate (w.items.map showItem) ++ " # " ++ " # ".intercalate lfs
+
+/-! ### a whole write: `wfile …` -/
+
+def parseSlots (slots : String) : Option (List Slot) :=
+  if slots == "-" then some [] else (slots.splitOn ";").mapM fun (t : String) =>
+    match t.splitOn "x" with
+    | [a, es] => match a.toNat?, (if es == "" then some [] else (es.splitOn ",").mapM String.toNat?) with
+      | some a, some es => some { size := a, elems := es } | _, _ => none
+    | _ => none
+
+def takeSets : Nat → List String → Option (List (Nat × SetDesc) × List String)
+  | 0, ts => some ([], ts)
+  | n + 1, ty :: ts => do
+    let ty ← ty.toNat?
+    let (sd, r) ← takeSetDesc ts
+    let (rest, r') ← takeSets n r
+    pure ((ty, sd) :: rest, r')
+  | _, _ => none
+
+def takeNoFormats : Nat → List String → Option (List (ObName × Bytes) × List String)
+  | 0, ts => some ([], ts)
+  | n + 1, o :: c :: nm :: h :: ts => do
+    let o ← o.toInt?
+    let c ← c.toInt?
+    let nm ← parseCps nm
+    let b ← bytesOfHex h
+    let (rest, r) ← takeNoFormats n ts
+    pure (({ origin := o, copy := c, name := nm }, b) :: rest, r)
+  | _, _ => none
+
+def takeRowsW : Nat → List String → Option (List (List Slot) × List String)
+  | 0, ts => some ([], ts)
+  | n + 1, t :: ts => do
+    let sl ← parseSlots t
+    let (rest, r) ← takeRowsW n ts
+    pure (sl :: rest, r)
+  | _, _ => none
+
+def takeFrames : Nat → List String → Option (List FrameSpec × List String)
+  | 0, ts => some ([], ts)
+  | n + 1, o :: c :: nm :: nr :: ts => do
+    let o ← o.toInt?
+    let c ← c.toInt?
+    let nm ← parseCps nm
+    let nr ← nr.toNat?
+    let (rows, r) ← takeRowsW nr ts
+    let (rest, r') ← takeFrames n r
+    pure ({ frame := { origin := o, copy := c, name := nm }, rows := rows } :: rest, r')
+  | _, _ => none
+
+def takeLfs : Nat → List String → Option (List LfSpec × List String)
+  | 0, ts => some ([], ts)
+  | n + 1, ho :: hc :: hn :: sq :: hid :: ns :: ts => do
+    let ho ← ho.toInt?
+    let hc ← hc.toInt?
+    let hn ← parseCps hn
+    let sq ← sq.toInt?
+    let hid ← parseCps hid
+    let ns ← ns.toNat?
+    let (sets, r) ← takeSets ns ts
+    match r with
+    | nn :: r1 => do
+      let nn ← nn.toNat?
+      let (nfs, r2) ← takeNoFormats nn r1
+      match r2 with
+      | nf :: r3 => do
+        let nf ← nf.toNat?
+        let (frs, r4) ← takeFrames nf r3
+        let (rest, r5) ← takeLfs n r4
+        pure ({ headerName := { origin := ho, copy := hc, name := hn }, seqNo := sq, headerId := hid, sets := sets,
+                noformat := nfs, frames := frs } :: rest, r5)
+      | [] => none
+    | [] => none
+  | _, _ => none
+
+def handleWfile : List String → String
+  | vrl :: seq :: sid :: fr :: to :: ch :: n :: rest =>
+    match vrl.toInt?, parseCps seq, parseCps sid, fr.toNat?, (if to == "~" then some none else to.toNat?.map some),
+          (if ch == "~" then some none else ch.toNat?.map some), n.toNat? with
+    | some vrl, some seq, some sid, some fr, some to, some ch, some n =>
+      match takeLfs n rest with
+      | some (lfs, []) => showRes (modelWrite { vrl := vrl, seq := seq, setId := sid } { fromIdx := fr, toIdx := to, chunk := ch } lfs)
+      | _ => "bad"
+    | _, _, _, _, _, _, _ => "bad"
+  | _ => "bad"
 
 def handle (ws : List String) : String :=
   match ws with
@@ -380,6 +482,7 @@ def handle (ws : List String) : String :=
       let s' := hcStep acc.1 op
       (s', acc.2 ++ [s'.flag])) ({ flag := f0 == "1", saved := [] }, [])
     "ok " ++ String.ofList (go.2.map fun b => if b then '1' else '0') ++ s!" depth={go.1.saved.length}"
+  | "wfile" :: rest => handleWfile rest
   | "asg" :: rest => handleAsg rest
   | "convof" :: rest => handleConvOf rest
   | "dflt" :: rest => handleDflt rest
